@@ -1710,8 +1710,11 @@ namespace awkward {
     std::pair<int64_t, int64_t> minmax = minmax_depth();
     int64_t mindepth = minmax.first;
     int64_t maxdepth = minmax.second;
-    int64_t depth = purelist_depth();
-    if (mindepth == depth  &&  maxdepth == depth) {
+    if (mindepth == maxdepth) {
+      // every branch is equally deep (purelist_depth() stops at a record, so
+      // it cannot be the test: records whose fields are all lists would keep
+      // a negative axis unresolved and could not address their own level)
+      int64_t depth = maxdepth;
       int64_t posaxis = depth + axis;
       if (posaxis < 0) {
         throw std::invalid_argument(
